@@ -259,7 +259,14 @@ pub fn solve_milp_lp_problem_with(
                     }
                 })
                 .collect();
-            let coeffs = (0..microlp_vars.len()).map(value_of).collect();
+            let coeffs: Vec<f64> = (0..microlp_vars.len()).map(value_of).collect();
+            // on badly scaled rows the backend can hand back a point that
+            // violates them: that is no solution
+            if !crate::solvers::common::point_satisfies_model(lp, &coeffs) {
+                return Err(SolverError::Other(
+                    "MicroLP returned a point that violates the model".to_string(),
+                ));
+            }
             let constraints = make_constraints_map_from_assignment(lp, &coeffs);
             Ok(LpSolution::new(
                 assignment,
